@@ -240,6 +240,22 @@ def relational(rep, rng, tier):
                     so5a, so5b = qutip.SESolver(H, options=opts), qutip.SESolver(H, options=opts)
                     so5a.start(psi0, 0); so5b.start(psi_other, 0)
                     a1 = so5a.step(0.5); so5b.step(0.8); a2 = so5a.step(1.0)
+                    # 6. master-equation solvers built from one and the same time-dependent Liouvillian object: giving one of
+                    #    them new arguments in between does not reach the other
+                    extra = []
+                    if td:
+                        Lw = qutip.QobjEvo([qutip.liouvillian(H0), [qutip.liouvillian(H1), lambda t, w: np.cos(w * t)]], args={"w": 1.0})
+                        rho0, rho_o = qutip.ket2dm(psi0), qutip.ket2dm(psi_other)
+                        refL = qutip.MESolver(Lw, options=opts).run(rho0, [0, 0.5, 1.0]).states
+                        m1, m2 = qutip.MESolver(Lw, options=opts), qutip.MESolver(Lw, options=opts)
+                        m1.start(rho0, 0)
+                        b1 = m1.step(0.5)
+                        m2.run(rho_o, [0, 0.3], args={"w": 2.5})
+                        b2 = m1.step(1.0)
+                        b3 = m1.run(rho0, [0, 0.5, 1.0]).states[-1]
+                        b4 = qutip.MESolver(Lw, options=opts).run(rho0, [0, 0.5, 1.0]).states[-1]
+                        extra = [("shared-generator-object", b1, refL[1]), ("shared-generator-object", b2, refL[2]),
+                                 ("shared-generator-object", b3, refL[2]), ("shared-generator-object", b4, refL[2])]
             except Exception as e:
                 if type(e).__name__ == "IntegratorException":      # the integrator gives up: a refusal, not a wrong state
                     rep.count("integrator-refused:" + method)
@@ -251,7 +267,7 @@ def relational(rep, rng, tier):
                      ("restart", r2, refd[1.0]), ("start-step", st[-1], refd[1.0]), ("start-step", st[0], refd[0.25]),
                      ("past-use", s4[-1], refd[1.0]), ("past-use", s4[1], refd[0.125]),
                      ("past-use-eigenstate", s6[-1], refd[1.0]), ("past-use-eigenstate", s6[4], refd[0.5]),
-                     ("interleaved", a2, refd[1.0]), ("interleaved", a1, refd[0.5])]
+                     ("interleaved", a2, refd[1.0]), ("interleaved", a1, refd[0.5])] + extra
             for name, got, want in pairs:
                 err = (got - want).norm()
                 rep.count("relational-" + name)
